@@ -251,6 +251,7 @@ def simple_screen(
     nt = draw(st.integers(*n_treat))
     npl = draw(st.integers(*n_plates))
     n = draw(st.integers(*n_rows))
+    name_salt = draw(st.one_of(st.none(), st.integers(0, 88))) if single_sample_plates else None
     rows = []
     for _ in range(n):
         s = draw(st.integers(0, ns - 1))
@@ -262,7 +263,9 @@ def simple_screen(
                 t = (t + 1) % nt if nt > 1 else -1
             ts.append(t)
         if single_sample_plates:
-            p = "p%d_%d" % (s, draw(st.integers(0, npl - 1)))
+            j_ = draw(st.integers(0, npl - 1))
+            # plate ids follow the sorted names: with a salt the plates of one sample are NOT contiguous in that order
+            p = "p%d_%d" % (s, j_) if name_salt is None else "%02d_p%d_%d" % ((s * 37 + j_ * 11 + name_salt) % 89, s, j_)
         else:
             p = "p%d" % draw(st.integers(0, npl - 1))
         rows.append(
